@@ -157,7 +157,7 @@ def run(ctx):
     ctx.states += a["mc"].distinct
     ctx.transitions += a["mc"].generated
     ctx.cov["mc_distinct"] = a["mc"].distinct
-    cases, cover = compose(ctx, a["gen"], ctx.pick(110, 900))
+    cases, cover = compose(ctx, a["gen"], ctx.pick(110, 2000))
     ctx.log("%d cases (%d covering), %d operations" % (len(cases), cover, sum(len(c["ops"]) for c in cases)))
     cp, op = ctx.path("focases.ndjson"), ctx.path("foobs.ndjson")
     with open(cp, "w") as fh:
